@@ -175,25 +175,25 @@ PLANS = {
 ST_TRANS = S("trans", chunks=TRANS, n={"quick": 5000, "thorough": 60000}, shards={"quick": 16, "thorough": 4})
 TRANS_RULE = ("one event = one call of a math function on a (source type, destination type, operand) with its Ok/Err/value/panic outcome "
               "and the per-loop iteration counts read from the cfg(substrate_fixed_verif) hook; types: every signed/unsigned layout with "
-              ">= 9 integer and >= 23 fractional bits in thorough (131 + 131 + 136 S!=D pairs), the named ones plus extremes in quick; "
+              ">= 9 integer and >= 23 fractional bits in thorough (131 + 131 types with S = D, 286 pairs with S != D: two random wider destinations per source plus every destination at the reciprocal edge F_S = I_D - 1 +- 1), the named ones plus extremes in quick; "
               "operands: 0, +-ulp, +-1, MIN, MAX, 2^k +- few ulp over the whole exponent range, e, perfect squares +- ulp, sqrt(2)-type "
               "mantissas, reciprocal-limit operands of the destination, exp/pow arguments spread to +-(ln MAX + 3) and dense at the "
-              "overflow threshold, angles k*pi/4 +- few ulp for all k with |x| <= 200, tan poles +- (1/64 + small), +-200/+-100 exactly, "
+              "overflow threshold, simple fractions p/q and reciprocals of perfect squares, limb-structured patterns (both half-width limbs from {0,1,2,2^(h-1),2^(h-1)+-1,2^h-1,2^h-2,random}), angles k*pi/4 +- few ulp for all k with |x| <= 200, signed sums of the first m double-precision arctangents atan(2^-i) and k*f64(pi/4), tan poles +- (1/64 + small), +-200/+-100 exactly, "
               "powi exponents {i32::MIN, MIN+1, ..., -1, 0, 1, ..., i32::MAX} x bases {0, +-1, +-ulp, +-(1+-ulp), +-2, 1/2, MAX, MIN, 1+-2^-k}; ")
 TP = {
     "C12": ("a coverage cell is (S>D, function, magnitude class of the operand, outcome ok/err/val/panic/limit); non-trivial = operand not 0/1",
-            ["sqrt", "log2", "ln", "exp", "pow", "powi", "sin", "cos", "tan"], {"quick": 20, "thorough": 398}, ["release", "checked"], ["release", "checked"]),
+            ["sqrt", "log2", "ln", "exp", "pow", "powi", "sin", "cos", "tan"], {"quick": 40, "thorough": 548}, ["release", "checked"], ["release", "checked"]),
     "C13": ("cells as C12 restricted to sqrt; judged by the exact integer bracket (R-4)^2 <= x*2^2g <= (R+4)^2",
-            ["sqrt"], {"quick": 20, "thorough": 398}, ["release"], ["release", "checked"]),
+            ["sqrt"], {"quick": 40, "thorough": 548}, ["release"], ["release", "checked"]),
     "C14": ("cells as C12 restricted to log2/ln; reference mpmath at 500 bits",
-            ["log2", "ln"], {"quick": 15, "thorough": 199}, ["release"], ["release", "checked"]),
+            ["log2", "ln"], {"quick": 27, "thorough": 275}, ["release"], ["release", "checked"]),
     "C15": ("cells as C12 restricted to exp/pow/powi; reference mpmath at 500 bits, exact rationals for |n| <= 512",
-            ["exp", "pow", "powi"], {"quick": 15, "thorough": 199}, ["release"], ["release", "checked"]),
+            ["exp", "pow", "powi"], {"quick": 27, "thorough": 275}, ["release"], ["release", "checked"]),
     "C16": ("cells as C12 restricted to sin/cos/tan inside the accuracy domain; reference mpmath at 500 bits",
             ["sin", "cos", "tan"], {"quick": 10, "thorough": 131}, ["release"], ["release", "checked"]),
     "C17": ("cells as C12 without powi; the judged quantity is the sum of the hook's loop counters per call against 4*width+64, "
             "including angles of every magnitude up to MIN/MAX",
-            ["sqrt", "log2", "ln", "exp", "pow", "sin", "cos", "tan"], {"quick": 20, "thorough": 398}, ["release"], ["release"]),
+            ["sqrt", "log2", "ln", "exp", "pow", "sin", "cos", "tan"], {"quick": 40, "thorough": 548}, ["release"], ["release"]),
 }
 for _p, (_r, _ops, _nl, _qp, _tp) in TP.items():
     _st = dict(ST_TRANS)
